@@ -306,7 +306,9 @@ class DictWrapper:
 
             tree = Tree.load(file_path, mapper=DictWrapper.deserialize_mapper)
         """
-        return cls(**data)
+        # `data_id` and `kind` are reserved entries that are evaluated by nutree
+        values = {k: v for k, v in data.items() if k not in ("data_id", "kind")}
+        return cls(**values)
 
 
 def get_version() -> str:
